@@ -499,7 +499,7 @@ func c19CheckNums(c c19NumCase) engine.Result {
 	}
 	engine.Guard(&res, "CanClose", func() {
 		for exp := 0; exp < 256; exp++ {
-			vi := c19Val{Type: c.InType, Event: 1, HasPTS: true, PTS: 200, Num: uint8(c.Num), Exp: uint8(exp)}
+			vi := c19Val{Type: c.InType, Event: 2, HasPTS: true, PTS: 200, Num: uint8(c.Num), Exp: uint8(exp)}
 			in := mkDescriptor(vi)
 			for j, o := range openDs {
 				res.Evals++
